@@ -146,11 +146,11 @@ Proof.
 Qed.
 
 Lemma all_wire_runs_pass_flags : forall fl (cleans : bool),
-  f_snapshot fl = true -> f_clear_writer fl = true -> cleans = true ->
+  f_snapshot fl = true -> f_clear_writer fl = true -> f_clear_writer_late fl = false -> cleans = true ->
   forall (lab : wmsg -> label) c0 nn nc, nn + nc <= 3 ->
   forall items w h, wexec fl lab (w_init (init_cfg c0 nn nc)) items = (w, h) ->
     check_prefix (nn + nc) h = true /\
     (quiescent fl (w_s w) = true -> check_history (nn + nc) h = true).
 Proof.
-  intros [a b] cleans Ha Hb _. cbn in Ha, Hb. subst a b. exact all_wire_runs_pass.
+  intros [a b c] cleans Ha Hb Hc _. cbn in Ha, Hb, Hc. subst a b c. exact all_wire_runs_pass.
 Qed.
